@@ -71,4 +71,14 @@ for it in range(R.n(30, 600)):
     R.check('spectrum/axis', c, sp.data.shape == (1, n) and np.allclose(sp.fs, fr.fs, rtol=0, atol=1e-6 * df), None)
     R.check('timeseries/axis', c, ts_.data.shape == (T, 1) and np.allclose(ts_.ts, fr.ts), None)
     inh('spectrum', sp, c); inh('timeseries', ts_, c)
+# the spectrum / timeseries wrappers are integrate(..., as_frame=True) with the same mode and normalisation
+fr = stg.Frame(fchans=20, tchans=6, df=2.0, dt=1.0, fch1=1e9, ascending=True, seed=3, t_start=5.0)
+fr.add_noise(10)
+for mode in ('mean', 'sum'):
+    a, b = stg.timeseries(fr, mode=mode), stg.integrate(fr, axis='f', mode=mode, as_frame=True)
+    c2, d2 = stg.spectrum(fr, mode=mode), stg.integrate(fr, axis='t', mode=mode, as_frame=True)
+    ref_t = fr.data.sum(axis=1) if mode == 'sum' else fr.data.mean(axis=1)
+    ref_f = fr.data.sum(axis=0) if mode == 'sum' else fr.data.mean(axis=0)
+    R.check('wrappers/timeseries-and-spectrum-pass-the-mode-through', dict(mode=mode), np.allclose(a.data.ravel(), ref_t) and np.allclose(b.data.ravel(), ref_t)
+            and np.allclose(c2.data.ravel(), ref_f) and np.allclose(d2.data.ravel(), ref_f), [float(a.data.ravel()[0]), float(ref_t[0])])
 R.finish()
